@@ -65,6 +65,14 @@ def gen_case(streams, tier):
         rest = [n for n in one_bit if n != assertion]
         if rest and f.random() < 0.5:
             assertion2 = f.choice(rest)       # a second, later-registered assertion
+    shadow = None
+    ins_w = [(w['n'], w['w']) for w in script['wires'] if w['k'] == 'I']
+    if ins_w and f.random() < 0.35:
+        n_, w_ = f.choice(ins_w)
+        shadow = {'at': f.randrange(ncyc), 'name': n_, 'width': w_, 'seed': f.getrandbits(32)}
+        # and offer an out-of-range value on that very input right afterwards
+        faults.append({'kind': 'reject_step', 'at': shadow['at'], 'wire': n_,
+                       'value': (1 << w_) + f.getrandbits(2)})
     outs = [w['n'] for w in script['wires'] if w['k'] == 'O']
     wrong = []
     for _ in range(f.randint(0, 4)):
@@ -73,7 +81,7 @@ def gen_case(streams, tier):
         'prop': ID, 'kind': kind, 'script': script, 'init': init,
         'cycles': gen.gen_inputs(streams['inputs'], script, ncyc),
         'faults': faults, 'assert_wire': assertion, 'assert_wire2': assertion2,
-        'wrong_cells': wrong,
+        'wrong_cells': wrong, 'shadow': shadow,
         'batches': [streams['sched'].randint(1, 4) for _ in range(ncyc)],
         'vcd_clock': g.random() < 0.3,
         'sched': world.gen_sched(streams),
@@ -265,8 +273,13 @@ def run(case, res):
         return None
     tape = tape[:ncyc]
     tracer = 'all' if kind != 'compiled' else None
-    sim = replica.make_sim(kind, live, init, tracer='all')
-    twin = replica.make_sim(kind, live, init, tracer='all')
+    try:
+        sim = replica.make_sim(kind, live, init, tracer='all')
+        twin = replica.make_sim(kind, live, init, tracer='all')
+    except HarnessError:
+        raise
+    except Exception as e:
+        return Violation('constructor', 'simulator_refuses_valid_block', {'exc': repr(e)[:300]}, [kind])
     widths = {w.name: w.bitwidth for w in b.block.wirevector_set}
     res.shape = hashlib.sha1((kind + script_shape(script)).encode()).hexdigest()[:12]
     res.sched = hashlib.sha1(repr([case['batches'], sched.get('hash_seed')]).encode()).hexdigest()[:12]
@@ -275,7 +288,12 @@ def run(case, res):
     for f in case['faults']:
         faults.setdefault(f['at'], []).append(f)
     accepted = 0
+    keepalive = []
     for ci, cyc in enumerate(tape):
+        sh = case.get('shadow')
+        if sh and sh['at'] == ci:
+            keepalive.append(world.foreign_shadow_sim(sh['seed'], sh['name'], sh['width']))
+            res.faults.hit('foreign_shadow_simulator')
         for f in faults.get(ci, []):
             v = world.apply_reject(sim, f, cyc, kind)
             res.faults.hit('reject_step')
@@ -450,6 +468,10 @@ def candidates(case):
     if case.get('wrong_cells'):
         c = copy.deepcopy(case)
         c['wrong_cells'] = []
+        yield c
+    if case.get('shadow'):
+        c = copy.deepcopy(case)
+        c['shadow'] = None
         yield c
     if case['sched'].get('iter_policy') or case['sched'].get('perm_seed') is not None:
         c = copy.deepcopy(case)
